@@ -56,6 +56,7 @@ FORMULA = {
     'Formula:C2H3[15N1]H2O1': {'C': 2, 'H': 5, '15N': 1, 'O': 1},
     'Formula:[13C2]H2[13C1]': {'13C': 3, 'H': 2},
     'Formula:C2[13C1]C3H2': {'C': 5, '13C': 1, 'H': 2},
+    'Formula:C2H4OS': {'C': 2, 'H': 4, 'O': 1, 'S': 1},
 }
 
 GLYCAN = {
